@@ -42,6 +42,8 @@ var Corpus = [][]string{
 // Directed: histories aimed at state that survives a restart of a stub on a live connection
 // (must pass).
 var Directed = [][]string{
+	// a timeout toxic that never fires, connections that come and go under it, then its removal
+	{"proxy p1 echo", "toxic p1 up t1 timeout {\"timeout\":0}", "traffic p1 10 1", "traffic p1 10 1", "untoxic p1 t1", "echo p1"},
 	// more toxics in one direction than there are toxic types, then new connections
 	{"proxy p1 echo", "toxic p1 up m1 latency {\"latency\":0}", "toxic p1 up m2 latency {\"latency\":0}", "toxic p1 up m3 latency {\"latency\":0}",
 		"toxic p1 up m4 latency {\"latency\":0}", "toxic p1 up m5 latency {\"latency\":0}", "toxic p1 up m6 latency {\"latency\":0}",
